@@ -11,6 +11,7 @@ from __future__ import annotations
 
 import itertools
 import os
+import sys
 import random
 import threading
 import time
@@ -30,6 +31,7 @@ ASSUMPTIONS = ["for frames with a wrong length field the permitted outcomes are 
                "queue poll time-outs are scaled by the shim (5 s -> 5 ms); they do not change which branch runs"]
 TIMEOUT = {"quick": 900, "thorough": 3600}
 SPIN_LIMIT = 6
+STUCK_SECONDS = 1.5    # wall time inside one Message.from_bytes call that counts as 'never returns'
 
 
 def shards(tier, seed):
@@ -168,10 +170,38 @@ class Rig:
 
     def wait(self):
         end = time.time() + 20
+        inside = (None, 0.0)      # (id of the decode call the reader is in, when first seen there)
+        nxt = time.time() + 0.2
         while not self.reader_parked_or_done():
             if self.spin_witness is not None and not self.conn._read_thread.is_alive():
                 return
-            if time.time() > end:
+            now = time.time()
+            if now > nxt:
+                # a reader that stays inside ONE call of the message decoder is stuck there (a decode of a frame of
+                # this size takes milliseconds): the spin happens below the header-parse monitor
+                nxt = now + 0.2
+                t = self.conn._read_thread
+                fr = sys._current_frames().get(t.ident)
+                dec, stack = None, []
+                while fr is not None:
+                    fn = fr.f_code.co_filename
+                    if "/diameter/" in fn:
+                        stack.append(f"{fn.rsplit('/', 1)[-1]}:{fr.f_code.co_name}:{fr.f_lineno}")
+                        if fr.f_code.co_name == "from_bytes" and fn.endswith("_base.py"):
+                            dec = id(fr)
+                    fr = fr.f_back
+                if dec is None or dec != inside[0]:
+                    inside = (dec, now)
+                elif now - inside[1] > STUCK_SECONDS:
+                    self.spin_witness = {"stuck_in_decode_for_s": round(now - inside[1], 1), "stack": stack[:6],
+                                         "buffer_len": len(self.conn._read_buffer),
+                                         "head": bytes(self.conn._read_buffer[:24]).hex(), "where": "decode"}
+                    # get the thread out of the loop (and stop it from allocating): asynchronous exception
+                    import ctypes
+                    ctypes.pythonapi.PyThreadState_SetAsyncExc(ctypes.c_ulong(t.ident), ctypes.py_object(SystemExit))
+                    t.join(5)
+                    return
+            if now > end:
                 from vf.simnet.harness import Inconclusive
                 raise Inconclusive("reader neither parked nor ended within the watchdog")
             time.sleep(0.0002)
@@ -322,6 +352,8 @@ class Run:
             # mechanism from the state the reader spins in: the length field it keeps re-reading
             lf = int(rig.spin_witness["head"][2:8] or "0", 16)
             skey = "zero_length_field" if lf == 0 else f"length_field_{lf}"
+            if rig.spin_witness.get("where") == "decode":
+                skey = "inside_message_decode"
             self.witness(f"framing.spin.{skey}", {**rig.spin_witness, "label": label}, replay)
             rig.spin_witness = None
             return
@@ -341,6 +373,19 @@ class Run:
                              {"delivered": hdrs[:8], "expected": (expb + expa)[:8], "closed": closed,
                               "buffer": len(c._read_buffer)}, replay)
             out = "skipped"
+        elif label == "odd-body":
+            odd = (R.RHeader(bad).code, R.RHeader(bad).hbh, R.RHeader(bad).e2e)
+            if closed:
+                out = "closed"
+            elif hdrs == expb + expa:
+                out = "skipped"
+            elif hdrs == expb + [odd] + expa:
+                out = "delivered"
+            else:
+                self.witness("framing.odd_body_frame_affects_later_frames",
+                             {"delivered": hdrs[:8], "expected": (expb + expa)[:8], "closed": closed,
+                              "buffer": len(c._read_buffer), "body": bad[20:60].hex()}, replay)
+                out = "disturbed"
         else:
             out = "closed" if closed else ("resynchronised" if len(hdrs) > len(expb) else "waiting")
         k = f"{mech}:{out}"
@@ -423,6 +468,17 @@ def bad_frames(frame: bytes, nxt: bytes, rng):
     for pad in (180, 1000):
         good = R.enc_avp(25, rng.randbytes(pad), 0, 0x40)
         out.append(("undecodable-body", R.enc_msg(272, app=4, flags=0x80, hbh=3, e2e=3, avps=good + body)))
+    # correct message length, odd body: AVPs announcing fewer bytes than an AVP header has (0..7, or 8..11 with the
+    # vendor flag), alone and behind a good AVP, and zero-filled bodies.  The frame may be delivered, skipped, or the
+    # connection closed - but the reader must come back
+    good = R.enc_avp(263, b"sess;odd", 0, 0x40)
+    for k, odd in enumerate([bytes(8), bytes(16), bytes(40), b"\x00\x00\x01\x07\x40\x00\x00\x00",
+                             b"\x00\x00\x01\x07\x40\x00\x00\x01", b"\x00\x00\x01\x07\x40\x00\x00\x04" + b"abcd",
+                             b"\x00\x00\x01\x07\x40\x00\x00\x07" + b"abcd",
+                             b"\x00\x00\x01\x07\xc0\x00\x00\x08\x00\x00\x28\xaf",
+                             b"\x00\x00\x01\x07\xc0\x00\x00\x00\x00\x00\x28\xaf"]):
+        for pre in (b"", good):
+            out.append(("odd-body", R.enc_msg(272, app=4, flags=0x80, hbh=0x0dd0 + k, e2e=0x0dd, avps=pre + odd)))
     for ln in [0] + list(range(1, 20)) + [real - 4, real + 4, real + len(nxt), (1 << 24) - 1]:
         if ln == real or ln < 0:
             continue
@@ -618,7 +674,7 @@ def finish(tier, seed, cov, evaluations):
     if cov.get("one_cut_cases", 0) == 0 or cov.get("two_cut_cases", 0) == 0:
         out.append("no exhaustive cut case ran")
     bf = cov.get("bad_frame_cases", {})
-    for lbl in ("undecodable-body", "len=0", "len=1", "len=19", "len=real-4", "len=real+4", "len=real+next", "len=max"):
+    for lbl in ("undecodable-body", "odd-body", "len=0", "len=1", "len=19", "len=real-4", "len=real+4", "len=real+next", "len=max"):
         if bf.get(lbl, 0) == 0:
             out.append(f"bad-frame class {lbl} never exercised")
     return out
